@@ -20,7 +20,7 @@ BUDGET = {"quick": 22, "thorough": 240}
 MIN_CASES = {"quick": 20000, "thorough": 400000}
 EXHAUSTIVE_CLAIM = True
 RULE = ("structured URL cases rendered to strings: (1) a directed corpus; (2) for each of 7 component slots (user, password, inner path segment, last path segment, query key, "
-        "query value, fragment) ALL token sequences of length <= 2 (quick) / <= 3 (thorough) over the 38-token core alphabet (tokens that would leave the component when raw are "
+        "query value, fragment) ALL token sequences of length <= 2 (quick) / <= 3 (thorough) over the 39-token core alphabet (tokens that would leave the component when raw are "
         "excluded) placed in a fixed frame URL; (3) seeded random cases over the full grammar (scheme spellings, userinfo, 16 hosts incl. IDN/punycode/IPv4/IPv6, ports incl. "
         "leading zeros, dot segments, wrappers) with the 77-token table; each x quoted x strip_fragment (x default_protocol for scheme-less inputs). A case is (url, options); "
         "non-trivial = parseable by the reference reader and containing at least one '%', non-ASCII, space, port, userinfo, dot segment or wrapper; distinct = distinct (url, options).")
@@ -70,6 +70,8 @@ def judge(ctx, fn, case, quoted, strip_fragment, proto="https", shrink=True):
     ctx.ev()
     status, bad, info = evaluate(fn, u, quoted, strip_fragment, proto)
     ctx.out((u, quoted, strip_fragment, proto, status, (info or {}).get("out")))
+    if status != "unparseable" and info and "out" in info:
+        ctx.remember("ural.canonicalize_url:canonicalize_url", [u], {"quoted": quoted, "strip_fragment": strip_fragment, "default_protocol": proto}, info["out"])
     if status == "unparseable":
         ctx.count("unparseable-not-judged")
         return status
